@@ -194,7 +194,40 @@ func Corpus() []CorpusScenario {
 				{{Op: pipeline.Delete, Obj: ing("ns1", "ing2", nil)}},
 			},
 		},
+		{
+			// TCP services by annotation (with and without a hostname / TLS) and by the ConfigMap,
+			// an ssl-passthrough host with an HTTP port, acme, modsecurity: every support section
+			Name: "12-tcp-passthrough-support-sections",
+			Opt:  Opt{TCPConfigMap: true, DefaultService: "ns1/svc1"},
+			H: [][]pipeline.Change{
+				creates(pglobal(map[string]string{"acme-emails": "a@example.com", "acme-endpoint": "v2-staging", "acme-terms-agreed": "true", "modsecurity-endpoints": "10.0.0.50:12345"}),
+					ptcp(map[string]string{"5432": "ns1/svc1:80", "5433": "ns1/svc2:80:PROXY:PROXY-V1:ns1/tls-valid", "5434": "ns1/nosuch:80"}),
+					world.TLSSecret("ns1", "tls-valid", "a.example", 0),
+					svc("ns1", "svc1"), EndpointsRef("ns1", "svc1", "http", 8080, []string{"10.1.0.1", "10.1.0.2"}, nil, 0),
+					svc("ns1", "svc2"), EndpointsRef("ns1", "svc2", "http", 8080, []string{"10.1.1.1"}, nil, 0),
+					svc("ns1", "svc3"),
+					ing("ns1", "ing1", map[string]string{"tcp-service-port": "7000"}, rule("a.example", pth("/", "svc1")), rule("", pth("/", "svc2"))),
+					ingTLS(ing("ns1", "ing2", map[string]string{"tcp-service-port": "7001"}, rule("b.example", pth("/", "svc2"))), "tls-valid", "b.example"),
+					ing("ns1", "ing3", map[string]string{"ssl-passthrough": "true", "ssl-passthrough-http-port": "80"}, rule("sub.a.example", pth("/", "svc3"))),
+					ing("ns1", "ing4", map[string]string{"waf": "modsecurity", "ssl-passthrough": "true"}, rule("b.example", pth("/", "svc1")))),
+				{{Op: pipeline.Delete, Obj: svc("ns1", "svc2")}},
+				{{Op: pipeline.Update, Obj: ptcp(map[string]string{"5433": "ns1/svc1:80"})}},
+				{{Op: pipeline.Delete, Obj: ptcp(nil)}},
+			},
+		},
 	}
+}
+
+func ptcp(data map[string]string) client.Object {
+	cm := genGlobalEmpty()
+	cm.Name = "tcp-services"
+	cm.Data = data
+	return cm
+}
+
+func ingTLS(i *networking.Ingress, secret string, hosts ...string) *networking.Ingress {
+	i.Spec.TLS = append(i.Spec.TLS, networking.IngressTLS{Hosts: hosts, SecretName: secret})
+	return i
 }
 
 func pglobal(data map[string]string) client.Object {
